@@ -199,6 +199,94 @@ def copyIoN (g : G) (failHard : Bool) (pairs : List (Option Nat × Nat)) : G × 
   | (g', new, true) => (undoPairs g' new, .connErr)
   | (g', _, false) => (g', .ok)
 
+/-! ## `Composite.replace_child`: hard copy, `_seat_replacement`, removal of the replaced node
+
+    stand_ins = {id(old): (old, new_panel[key]) for zipped panels, for key, old in old_panel.items() if old.connected}
+    neighbours = {id(c): c for old, _ in stand_ins.values() for c in old.connections}
+    for c in neighbours.values():
+        c.connections = [stand_ins[id(x)][1] if id(x) in stand_ins else x
+                         for x in c.connections if x.owner is not replacement]
+    for old, new in stand_ins.values():
+        new.connections = [x for x in old.connections if x.owner is not owned]
+        old.connections = []
+
+The lists are ASSIGNED, one channel after the other (the second loop reads what the first wrote);
+`x.owner is replacement` is membership in the replacement's panel channels `newChans`. -/
+
+structure RepArgs where
+  /-- all panel channels of the replaced node / of the replacement -/
+  oldChans : List Nat
+  newChans : List Nat
+  /-- the zipped panels: `(counterpart on the replacement, channel of the replaced node)` -/
+  pairs : List (Option Nat × Nat)
+  deriving Repr
+
+def standInsOf (g : G) (pairs : List (Option Nat × Nat)) : List (Nat × Nat) :=
+  pairs.filterMap fun p => if (g.conns p.2).isEmpty then none else p.1.map fun n => (p.2, n)
+
+def subst (m : List (Nat × Nat)) (y : Nat) : Nat :=
+  match m.find? (fun e => e.1 == y) with
+  | some e => e.2
+  | none => y
+
+/-- first occurrences, as a dict keyed by identity keeps them -/
+def uniq : List Nat → List Nat
+  | [] => []
+  | x :: xs => if x ∈ uniq xs then uniq xs else x :: uniq xs
+
+def partnersOf (g : G) (m : List (Nat × Nat)) : List Nat := m.flatMap fun e => g.conns e.1
+
+/-- `channel.connections = l` -/
+def setConns (g : G) (c : Nat) (l : List Nat) : G := { g with conns := updF g.conns c l }
+
+def seatNeighbour (m : List (Nat × Nat)) (newChans : List Nat) (g : G) (q : Nat) : G :=
+  setConns g q (((g.conns q).filter fun x => !newChans.contains x).map (subst m))
+
+def seatNeighbours (g : G) (m : List (Nat × Nat)) (newChans : List Nat) (qs : List Nat) : G :=
+  qs.foldl (seatNeighbour m newChans) g
+
+def seatStandIn (oldChans : List Nat) (g : G) (e : Nat × Nat) : G :=
+  setConns (setConns g e.2 ((g.conns e.1).filter fun x => !oldChans.contains x)) e.1 []
+
+def seatStandIns (g : G) (oldChans : List Nat) (m : List (Nat × Nat)) : G :=
+  m.foldl (seatStandIn oldChans) g
+
+def seat (g : G) (m : List (Nat × Nat)) (oldChans newChans : List Nat) : G :=
+  seatStandIns (seatNeighbours g m newChans (uniq (partnersOf g m))) oldChans m
+
+def disjointL (a b : List Nat) : Bool := a.all fun x => !b.contains x
+
+/-- what `_seat_replacement` relies on (and what a hard copy onto an unconnected replacement
+establishes): the two nodes share no channel; stand-ins pair distinct channels of the replaced node
+with distinct channels of the replacement of the same kind; every connected channel of the replaced node
+has a stand-in; a channel of the replacement is connected only if it is a stand-in, and then only to
+partners of the replaced node. The model CHECKS this and answers `badObs` otherwise. -/
+def seatable (g : G) (m : List (Nat × Nat)) (oldChans newChans : List Nat) : Bool :=
+  disjointL oldChans newChans
+  && decide ((m.map Prod.fst).Nodup) && decide ((m.map Prod.snd).Nodup)
+  && m.all (fun e => oldChans.contains e.1 && newChans.contains e.2 && decide (g.kind e.1 = g.kind e.2))
+  && oldChans.all (fun o => (g.conns o).isEmpty || (m.map Prod.fst).contains o)
+  && newChans.all (fun n => (g.conns n).isEmpty || (m.map Prod.snd).contains n)
+  && newChans.all (fun n => (g.conns n).all fun z => (partnersOf g m).contains z)
+
+inductive RepOut | ok | refused | connErr | badObs
+  deriving DecidableEq, Repr
+
+/-- connection side of `replace_child`. `pre = false`: one of the guards that do not look at
+connections refused (parent, ancestry, type, value links — C13/C14's subject, observed). -/
+def replaceConn (g : G) (r : RepArgs) (pre : Bool) : G × RepOut :=
+  if !pre then (g, .refused)
+  else if anyConnected g r.newChans then (g, .refused)
+  else
+    match copyIoN g true r.pairs with
+    | (g1, .ok) =>
+      let m := standInsOf g1 r.pairs
+      if seatable g1 m r.oldChans r.newChans then
+        -- `remove_child(owned)`: its `disconnect()` (finds nothing any more)
+        (disconnectChans (seat g1 m r.oldChans r.newChans) r.oldChans, .ok)
+      else (g1, .badObs)
+    | (g1, _) => (g1, .connErr)
+
 /-! ## the alphabet of the current tree -/
 
 inductive Op
@@ -209,6 +297,8 @@ inductive Op
   | disconnectChans (cs : List Nat)
   | copyConns (a b : Nat)
   | copyIo (failHard : Bool) (pairs : List (Option Nat × Nat))
+  /-- `replace_child` -/
+  | replace (r : RepArgs) (pre : Bool)
   deriving Repr
 
 def step (g : G) : Op → G × Res
@@ -218,6 +308,7 @@ def step (g : G) : Op → G × Res
   | .disconnectChans cs => ((disconnectChansR g cs).1, .ok)
   | .copyConns a b => copyConnsN g a b
   | .copyIo fh ps => copyIoN g fh ps
+  | .replace r pre => ((replaceConn g r pre).1, if (replaceConn g r pre).2 = .ok then .ok else .connErr)
 
 def run (g : G) (ops : List Op) : G := ops.foldl (fun g o => (step g o).1) g
 
